@@ -239,8 +239,14 @@ Ltac sm2 :=
     | |- SimM (if ?b then _ else _) (if ?b then _ else _) => destruct b
     end.
 
+Lemma sim_install_checked sp n o : SimM (install_checked sp n o) (install_checked sp n o).
+Proof.
+  unfold install_checked. apply sim_get_bind; intros c c' H.
+  assert (HS : segment_has_code c n = segment_has_code c' n) by (unfold segment_has_code; same_core H; congruence).
+  rewrite HS. destruct (segment_has_code c' n); sm2.
+Qed.
 Lemma sim_define_segment sp l : SimM (define_segment sp l) (define_segment sp l).
-Proof. unfold define_segment. destruct (validate_segment sp l); [|apply sim_fail]. sm2. Qed.
+Proof. unfold define_segment. destruct (validate_segment sp l); [|apply sim_fail]. sm2. apply sim_install_checked. Qed.
 
 Lemma sim_loop_iterations body body' : (forall i, SimM (body i) (body' i)) -> forall fuel i n, SimM (loop_iterations fuel i n body) (loop_iterations fuel i n body').
 Proof.
